@@ -43,6 +43,8 @@ def parse_type(s):
         return ("List", parse_type(s[5:-1]))
     if s.startswith("Opt[") and s.endswith("]"):
         return ("Opt", parse_type(s[4:-1]))
+    if s.startswith("Set[") and s.endswith("]"):
+        return ("Set", parse_type(s[4:-1]))   # a Python set: a list without repetitions, in insertion order
     if s.startswith("Tuple[") and s.endswith("]"):
         inner, depth, parts, cur = s[6:-1], 0, [], ""
         for ch in inner:
@@ -76,7 +78,7 @@ def lean_type(t):
         return t
     if t[0] == "Dict":
         return f"(List ({lean_type(t[1])} × {lean_type(t[2])}))"
-    if t[0] == "List":
+    if t[0] in ("List", "Set"):
         return f"(List {lean_type(t[1])})"
     if t[0] == "Opt":
         return f"(Option {lean_type(t[1])})"
@@ -90,7 +92,7 @@ def uses_val(t):
         return True
     if isinstance(t, str):
         return False
-    if t[0] in ("List", "Opt"):
+    if t[0] in ("List", "Opt", "Set"):
         return uses_val(t[1])
     if t[0] == "Dict":
         return uses_val(t[1]) or uses_val(t[2])
@@ -845,6 +847,14 @@ class Tr:
 
     def call_stmt(self, call, rest, env, k, loop):
         f = call.func
+        if isinstance(f, ast.Attribute) and f.attr == "add" and len(call.args) == 1:
+            nm = self.target_name(f.value) if not isinstance(f.value, ast.Name) else f.value.id
+            if nm not in env or not (isinstance(env[nm], tuple) and env[nm][0] == "Set"):
+                raise Untranslatable(f"add on {nm}, which is not a declared set")
+            b, c, te = self.E(call.args[0], env)
+            if te != env[nm][1]:
+                raise Untranslatable(f"set element of type {te}")
+            return b + [f"let {nm} := Py.setAdd {nm} {c}"] + self.T(rest, env, k, loop)
         if isinstance(f, ast.Attribute) and f.attr in ("append", "pop", "clear"):
             nm = self.target_name(f.value) if not isinstance(f.value, ast.Name) else f.value.id
             if nm not in env:
@@ -903,9 +913,11 @@ class Tr:
                         c, t = self.coerce_to(c, t, want)
                 bs += b
                 cs.append(c if c.startswith("(") or " " not in c else f"({c})")
-            ups = ["self_" + u for u in how.get("updates", [])]
+            ups = ["self_" + u for u in how.get("updates", [])] + list(how.get("param_updates", []))
             pat = "_" if not ups else ups[0] if len(ups) == 1 else "(" + ", ".join(ups) + ")"
-            pre = ("h " if how.get("heap") else "")
+            # a recursive callee takes its fuel after the heap: the caller's own fuel (self-recursion) or a given bound
+            pre = ("h " if how.get("heap") else "") + ("fuel " if how.get("rec") else "") + \
+                  (how["fuel"] + " " if how.get("fuel") else "")
             return bs + [f"let {pat} ← {how['lean']} {pre}{' '.join(cs)}"] + self.T(rest, env, k, loop)
         raise Untranslatable(f"call statement {ast.unparse(call)[:60]}")
 
@@ -1084,10 +1096,13 @@ class Tr:
                     for el in ast.walk(n.target):
                         if isinstance(el, ast.Name):
                             hit.add(el.id)
-                if isinstance(n, ast.Call) and isinstance(n.func, ast.Attribute) and n.func.attr in ("append", "pop", "clear"):
+                if isinstance(n, ast.Call) and isinstance(n.func, ast.Attribute) and n.func.attr in ("append", "pop", "clear", "add"):
                     hit.add(tname(n.func.value))
                 if isinstance(n, ast.Call) and dotted(n.func) in self.calls and isinstance(self.calls[dotted(n.func)], dict):
                     for u in self.calls[dotted(n.func)].get("updates", []):
+                        hit.add(u)
+                        hit.add("self_" + u)
+                    for u in self.calls[dotted(n.func)].get("param_updates", []):
                         hit.add(u)
         return [v for v in env if v in hit]
 
@@ -1420,6 +1435,13 @@ def driver_source(specs, status, src_root):
         heap_block = HEAP_BLOCK
         cases.append('  | "find_dependencies" => toJ (Tr.find_dependencies (heapOfJson (argAt args 0)) (fromJ (argAt args 1)) (fromJ (argAt args 2)))')
         cases.append('  | "update_recursive" => toJ (Tr.update_recursive (heapOfJson (argAt args 0)) (fromJ (argAt args 1)) (fromJ (argAt args 2)) [] none)')
+        for n in ("collect_adapters_input", "collect_adapters_output"):
+            if status.get(n, {}).get("translated"):
+                imports.append(f"import FinamModel.Translated.{n}")
+                cases.append(f'  | "{n}" => let hp := heapOfJson (argAt args 0); toJ (Tr.{n} hp (hp.size + 1) (fromJ (argAt args 1)) [])')
+        if status.get("collect_adapters", {}).get("translated"):
+            imports.append("import FinamModel.Translated.collect_adapters")
+            cases.append('  | "collect_adapters" => toJ (Tr.collect_adapters (heapOfJson (argAt args 0)) (fromJ (argAt args 1)) [])')
         for n in ("check_input_connected", "check_dead_links", "check_branching"):
             if status.get(n, {}).get("translated"):
                 imports.append(f"import FinamModel.Translated.{n}")
